@@ -282,6 +282,49 @@ func runC02(c *Ctx) {
 				}
 			}
 		}
+		// big-number divisions panic on a zero divisor: in the decode closure the divisor must have been found non-zero
+		for _, ci := range allCalls(fn) {
+			cn := calleeName(ci.Common())
+			div := -1
+			switch cn {
+			case "math/big.(*Rat).SetFrac", "math/big.(*Int).Quo", "math/big.(*Int).Div", "math/big.(*Int).Mod", "math/big.(*Int).Rem", "math/big.(*Rat).Quo":
+				div = 2
+			case "math/big.(*Int).QuoRem", "math/big.(*Int).DivMod":
+				div = 2
+			case "math/big.(*Rat).SetFrac64":
+				div = 2
+			case "math/big.(*Rat).Inv":
+				div = 1
+			}
+			if div < 0 || div >= len(ci.Common().Args) || recovers {
+				continue
+			}
+			dv := ci.Common().Args[div]
+			if k, isK := dv.(*ssa.Const); isK {
+				if k.Value != nil && k.Int64() != 0 {
+					continue
+				}
+			}
+			if nc, isCall := dv.(*ssa.Call); isCall {
+				// NewInt(k) with a non-zero constant
+				if calleeName(&nc.Call) == "math/big.NewInt" {
+					if k, isK := nc.Call.Args[0].(*ssa.Const); isK && k.Value != nil && k.Int64() != 0 {
+						continue
+					}
+				}
+			}
+			dd := desc(dv)
+			v := c.mustPass(fn, []ssa.Instruction{ci.(ssa.Instruction)}, func(f string) bool {
+				return f == "call:math/big.(*Int).Sign("+dd+") != 0" || f == "call:math/big.(*Int).Sign("+dd+") > 0" || f == dd+" != 0" || f == dd+" > 0" ||
+					strings.HasPrefix(f, "call:math/big.(*Int).Cmp("+dd+",") && (strings.HasSuffix(f, " != 0") || strings.HasSuffix(f, " > 0"))
+			})
+			key := uniq(fk + ":" + cn[strings.LastIndex(cn, ".")+1:] + "(" + shortArg(trace(dv)) + ")")
+			if v[0].OK {
+				c.Ok("division-guarded", key, ci.Pos(), "the divisor was found non-zero on every path")
+				continue
+			}
+			site("division-guarded", key, ci.Pos(), "", cn+" with divisor "+shortArg(trace(dv))+" that was not found non-zero on every path ("+v[0].Witness+"): a zero taken from the input panics with a division by zero")
+		}
 		for _, in := range fnInstrs(fn) {
 			switch x := in.(type) {
 			case *ssa.TypeAssert:
